@@ -133,45 +133,88 @@ Proof.
   rewrite put_trunc, vtrunc_vtrunc_le by lia. apply vtrunc_trunc; lia.
 Qed.
 
-(* ---- assign r = (sel)? sel1 : sel0;    the simulator tests bit 0 of sel, Verilog tests sel != 0:
-        equal for a 1-bit select (guard); refuted for a wider one (inl_mux2_refuted) *)
-Theorem inl_mux2_sound r sel s0 s1 : okn sel -> snd sel = 1 -> okn s0 -> okn s1 -> 0 < snd r ->
+(* ---- assign r = (sel & 1)? sel1 : sel0;    bit 0 of the select decides, as in Mux2.propagate: EVERY select width *)
+Lemma and_one_cond sel : okn sel -> rself env (RBin BAnd (rid sel) (RNum 1)) = Z.land (val sel) 1.
+Proof.
+  intros [Hw Hv]. unfold rself. cbn [rsize rsigned arith_op shift_op reval rid andb bop extend].
+  set (cw := Z.max (snd sel) 32). assert (Hc : snd sel <= cw /\ 32 <= cw) by lia.
+  assert (Hv' : 0 <= getv env (fst sel) < 2 ^ cw) by (eapply small_in_wider; [|exact Hv]; lia).
+  assert (H1 : 0 <= 1 < 2 ^ cw).
+  { split; [lia|]. apply Z.lt_le_trans with (2 ^ 32); [lia|]. apply pow2_le; lia. }
+  rewrite (vtrunc_small cw (getv env (fst sel))) by lia.
+  rewrite (vtrunc_small 32 1) by lia. rewrite (vtrunc_small cw 1) by lia.
+  apply vtrunc_small; [lia|].
+  assert (Hb : 0 <= Z.land (getv env (fst sel)) 1 <= 1).
+  { pose proof (Z.land_ones (getv env (fst sel)) 1 ltac:(lia)) as E. change (Z.ones 1) with 1 in E. change (2 ^ 1) with 2 in E.
+    rewrite E. lia. }
+  lia.
+Qed.
+
+Lemma reval_cond w sg c a b : reval env w sg (RCond c a b) = if rself env c =? 0 then reval env w sg b else reval env w sg a.
+Proof. reflexivity. Qed.
+
+Theorem inl_mux2_sound r sel s0 s1 : okn sel -> okn s0 -> okn s1 -> 0 < snd r ->
   forall l e, inl_mux2 r sel s0 s1 = [(l, e)] ->
   assign_value env l e = Mux2_propagate (snd r) (val sel) (val s0) (val s1).
 Proof.
-  intros Hs Hs1 H0 H1 Hr l e H; inversion H; subst; clear H. unfold assign_value, Mux2_propagate. ctx.
+  intros Hs H0 H1 Hr l e H; inversion H; subst; clear H. unfold assign_value, Mux2_propagate.
+  cbn [lwidth whole rsize rsigned fst snd]. cbn [rid rsize rsigned andb].
   set (w := Z.max (snd r) (Z.max (snd s1) (snd s0))).
   assert (Hw : snd r <= w /\ snd s1 <= w /\ snd s0 <= w) by lia.
-  cbn [reval]. fold (rid s0) (rid s1) (rid sel).
-  change (reval env (rsize (rid sel)) (rsigned (rid sel)) (rid sel)) with (reval env (snd sel) false (rid sel)).
+  rewrite reval_cond, (and_one_cond sel Hs).
   rewrite !reval_rid by (auto; lia).
-  destruct Hs as [_ Hv]. rewrite Hs1 in Hv. change (2 ^ 1) with 2 in Hv.
-  assert (Hc : val sel = 0 \/ val sel = 1) by lia.
   cbv zeta. rewrite !put_trunc. unfold py_truth.
-  destruct Hc as [-> | ->]; cbn [Z.land Z.eqb negb Pos.land]; apply vtrunc_trunc; lia.
+  destruct (Z.land (val sel) 1 =? 0); cbn [negb]; apply vtrunc_trunc; lia.
 Qed.
 
-(* ---- assign r = a[hi:lo];   (0 <= lo <= hi) *)
-Theorem inl_range_sound r a hi lo : okn a -> 0 < snd r -> 0 <= lo <= hi ->
-  forall l e, inl_range r a hi lo = [(l, e)] -> assign_value env l e = Range_propagate (snd r) hi lo (val a).
+(* a 1-bit value is its own bit 0 *)
+Lemma land_one_bit v : 0 <= v < 2 -> Z.land v 1 = v.
+Proof. intros H. assert (Hc : v = 0 \/ v = 1) by lia. destruct Hc as [-> | ->]; reflexivity. Qed.
+
+(* ---- assign r = a[hi:lo];   (0 <= lo <= hi);   `assign r = a;` when a is a scalar net (1 bit, hi = lo = 0) *)
+Theorem rpart_sound r a hi lo : okn a -> 0 < snd r -> 0 <= lo <= hi ->
+  assign_value env (whole r) (RPart (fst a) hi lo) = Range_propagate (snd r) hi lo (val a).
 Proof.
-  intros Ha Hr Hl l e H; inversion H; subst; clear H. unfold assign_value, Range_propagate. ctx.
+  intros Ha Hr Hl. unfold assign_value, Range_propagate. ctx.
   cbn [reval]. norm_trunc.
   (* the number of kept bits may be written hi-lo+1, hi+1-lo, ... *)
   match goal with |- context [trunc ?n (Z.shiftr (val a) lo)] => replace n with (hi - lo + 1) by lia end.
   rewrite vtrunc_vtrunc_le by lia. rewrite !vtrunc_trunc by lia. reflexivity.
 Qed.
-
-(* ---- assign r = a[k];   (0 <= k < width a : the emitter's legal case; k >= width reads x in Verilog) *)
-Theorem inl_bit_sound r a k : okn a -> 0 < snd r -> 0 <= k < snd a -> k < 2 ^ 31 ->
-  forall l e, inl_bit r a k = [(l, e)] -> assign_value env l e = Bit_propagate (snd r) k (val a).
+Theorem inl_range_sound r a hi lo : okn a -> 0 < snd r -> 0 <= lo <= hi ->
+  forall l e, inl_range r a hi lo = [(l, e)] -> assign_value env l e = Range_propagate (snd r) hi lo (val a).
 Proof.
-  intros Ha Hr Hk Hk2 l e H; inversion H; subst; clear H. unfold assign_value, Bit_propagate. ctx.
+  intros Ha Hr Hl l e H. unfold inl_range in H.
+  destruct ((snd a =? 1) && (hi =? 0) && (lo =? 0)) eqn:Hs; inversion H; subst; clear H.
+  - assert (Hs' : snd a = 1 /\ hi = 0 /\ lo = 0) by lia. destruct Hs' as (Ha1 & -> & ->).
+    rewrite (inl_buf_sound r a Ha Hr _ _ eq_refl). unfold Buf_propagate, Range_propagate, py_shr, py_shl. cbv zeta.
+    destruct Ha as [_ Hv]. rewrite Ha1 in Hv. change (2 ^ 1) with 2 in Hv.
+    rewrite Z.shiftr_0_r. change (Z.shiftl 1 (0 - 0 + 1) - 1) with 1. rewrite land_one_bit by lia. reflexivity.
+  - apply rpart_sound; auto.
+Qed.
+
+(* ---- assign r = a[k];   (0 <= k < width a : the emitter's legal case; k >= width reads x in Verilog);
+        `assign r = a;` when a is a scalar net *)
+Theorem rbit_sound r a k : okn a -> 0 < snd r -> 0 <= k < snd a -> k < 2 ^ 31 ->
+  assign_value env (whole r) (RBit (fst a) (snd a) (pynum k)) = Bit_propagate (snd r) k (val a).
+Proof.
+  intros Ha Hr Hk Hk2. unfold assign_value, Bit_propagate. ctx.
   cbn [reval]. fold (rself env (pynum k)). rewrite self_pynum by lia.
   replace ((0 <=? k) && (k <? snd a)) with true by lia.
   cbv zeta. unfold Wire_put, py_shl, py_shr.
   change (Z.land (Z.land (Z.shiftr (val a) k) 1) (Z.shiftl 1 (snd r) - 1)) with (trunc (snd r) (Z.land (Z.shiftr (val a) k) 1)).
   rewrite vtrunc_vtrunc_le by lia. apply vtrunc_trunc; lia.
+Qed.
+Theorem inl_bit_sound r a k : okn a -> 0 < snd r -> 0 <= k < snd a -> k < 2 ^ 31 ->
+  forall l e, inl_bit r a k = [(l, e)] -> assign_value env l e = Bit_propagate (snd r) k (val a).
+Proof.
+  intros Ha Hr Hk Hk2 l e H. unfold inl_bit, bit_select in H.
+  destruct ((snd a =? 1) && (k =? 0)) eqn:Hs; inversion H; subst; clear H.
+  - assert (Hs' : snd a = 1 /\ k = 0) by lia. destruct Hs' as (Ha1 & ->).
+    rewrite (inl_buf_sound r a Ha Hr _ _ eq_refl). unfold Buf_propagate, Bit_propagate, py_shr. cbv zeta.
+    destruct Ha as [_ Hv]. rewrite Ha1 in Hv. change (2 ^ 1) with 2 in Hv.
+    rewrite Z.shiftr_0_r, land_one_bit by lia. reflexivity.
+  - apply rbit_sound; auto.
 Qed.
 
 (* ---- assign r[w-1:0] = v;  /  assign r = v;     (|v| < 2^31: the literal is a 32-bit signed decimal) *)
